@@ -46,6 +46,10 @@ COMBOS = [
     ("ben8-1.diff", "metadata.py", r"spec = _field_parsing_specs\[field_name\]", "spec = _field_parsing_specs.get(field_name, _field_parsing_specs['name'])", ["C10"]),
     ("ben16-2.diff", "metadata.py", r"parse_all_lines_for_field\(_field_parsing_specs\[field_name\]\)", "parse_all_lines_for_field(_field_parsing_specs['album' if field_name == 'artist' else field_name])", ["C10"]),
     ("ben24-1.diff", "metadata.py", r"(?m)^        if regex_not_match_callback is not None:$", "        if regex_not_match_callback is None:", ["C10", "C18"]),
+    # "find the first ... or None" helper returning the element (T3) for the open note: the dead carry of the expanded local is admitted,
+    # a defect inside the helper is not
+    ("ben6-2.diff", "instrument.py", r"(?m)^            return d$", "            return datas[0]", ["C03"]),
+    ("ben6-2.diff", "instrument.py", r"if open_data is not None:\n        return open_data\.sustain", "if open_data is not None and open_data.sustain:\n        return open_data.sustain", ["C03"]),
 ]
 
 
